@@ -142,12 +142,12 @@ def ledger(ctx, prop, runs):
             continue
         n_ok += 1
         for f in r.get("fails") or []:
-            m = re.match(r"\[(C\d+)\] (.*)", f, re.S)
-            cls, text = (m.group(1), m.group(2)) if m else (prop, f)
+            m = re.match(r"\[(C\d+)(?:/KNOWN ([^\]]+))?\] (.*)", f, re.S)
+            cls, known, text = (m.group(1), m.group(2), m.group(3)) if m else (prop, None, f)
             if cls == prop:
                 ctx.violation("run {%s}: %s" % (r["scenario"], text),
                               ctx.save_replay("ledger", {"scenario": r["scenario"], "failure": f}),
-                              key="ledger:" + text[:40])
+                              key=known or ("ledger:" + text[:40]))
             else:
                 print("OTHER-PROPERTY: ledger failure for %s: %s" % (cls, text[:300]), flush=True)
     return n_ok
